@@ -159,13 +159,13 @@ func vfc07RunFixture(t *testing.T, r *vfkit.Run, c int, rng *rand.Rand, nReq int
 			if st.kind == "proxy" && q%2 == 1 {
 				continue // the proxy repeats the work of both members; drive it on every second request
 			}
-			vfc07CheckRequest(r, c, rng, fx, st, seriesMs, labelMs, mint, maxt, replica, skip, res, selectorless)
+			vfc07CheckRequest(r, c, rng, fx, st, seriesMs, labelMs, mint, maxt, replica, skip, res, selectorless, !selectorless && vfc07Class(ms) == vfc07DupSetClass)
 		}
 	}
 }
 
 func vfc07CheckRequest(r *vfkit.Run, c int, rng *rand.Rand, fx *vfc07Fixture, st vfc07Store, seriesMs, labelMs []storepb.LabelMatcher,
-	mint, maxt int64, replica []string, skip bool, res int64, selectorless bool) {
+	mint, maxt int64, replica []string, skip bool, res int64, selectorless, dupSet bool) {
 	req := &storepb.SeriesRequest{MinTime: mint, MaxTime: maxt, Matchers: seriesMs, WithoutReplicaLabels: replica, SkipChunks: skip, MaxResolutionWindow: res,
 		Aggregates: []storepb.Aggr{storepb.Aggr_COUNT, storepb.Aggr_SUM, storepb.Aggr_MIN, storepb.Aggr_MAX, storepb.Aggr_COUNTER}}
 	srv, err, timedOut := vfc07Call(st.srv, req)
@@ -198,6 +198,8 @@ func vfc07CheckRequest(r *vfkit.Run, c int, rng *rand.Rand, fx *vfc07Fixture, st
 	sel := "with"
 	if selectorless {
 		sel = "none"
+	} else if dupSet {
+		sel = vfc07DupSetClass
 	}
 	witness := func(extra map[string]any) map[string]any {
 		m := map[string]any{"case": c, "store": st.kind, "series_matchers": fmt.Sprint(seriesMs), "label_matchers": fmt.Sprint(labelMs), "mint": mint, "maxt": maxt,
